@@ -431,6 +431,35 @@ func (s *OpStore) All() map[string][]*operation.AnchoredOperation {
 }
 
 // SliceStore serves a fixed list of operations for every suffix (used by resolution checks).
+// SharedSliceStore is an in-memory store that, like many simple stores (and the library's own mock), hands out its
+// internal slice: the same backing array, with spare capacity, on every Get. What a resolution does to that array
+// is seen by every later resolution.
+type SharedSliceStore struct {
+	ops []*operation.AnchoredOperation
+}
+
+// NewSharedSliceStore copies ops once into an array with spare capacity.
+func NewSharedSliceStore(ops []*operation.AnchoredOperation) *SharedSliceStore {
+	s := &SharedSliceStore{ops: make([]*operation.AnchoredOperation, 0, len(ops)+4)}
+	for _, op := range ops {
+		s.ops = append(s.ops, CopyOp(op))
+	}
+	return s
+}
+
+// Get implements processor.OperationStoreClient (all operations are assumed to belong to one suffix).
+func (s *SharedSliceStore) Get(suffix string) ([]*operation.AnchoredOperation, error) {
+	for _, op := range s.ops {
+		if op.UniqueSuffix != suffix {
+			return nil, errors.New("SharedSliceStore holds one suffix only")
+		}
+	}
+	if len(s.ops) == 0 {
+		return nil, errors.New("uniqueSuffix not found in the store")
+	}
+	return s.ops, nil
+}
+
 type SliceStore struct {
 	Ops []*operation.AnchoredOperation
 }
